@@ -128,6 +128,34 @@ def gen_schedule(r, T, prob=0.3, mid_prob=0.0):
 
 # --------------------------------------------------------------------------- per-algorithm parameters
 
+def gen_budget(r, lo=100, hi=600):
+    """Budgets: half round numbers, half arbitrary (odd budgets and such matter for schedules)."""
+    if r.random() < 0.5:
+        return r.choice([x for x in (100, 100, 128, 200, 256, 300, 400, 512, 600) if lo <= x <= hi] or [lo])
+    return r.randint(lo, hi)
+
+
+def gen_neighbour(r, sc, seed):
+    """A second instance of the same class with its own parameters (and sometimes its own box), living in
+    the same process: built and driven for `pre` rounds before the instance under test, then one round
+    after every `every`-th round of it."""
+    algo = sc["algo"]
+    d = len(sc["domain"])
+    part = dict(sc["partition"])
+    dom = [gen_side(r) for _ in range(d)] if r.random() < 0.5 else [list(x) for x in sc["domain"]]
+    n2 = gen_budget(r, 100, 300) if algo != "VROOM" else r.choice([16, 32, 64, 100])
+    params, n2, meta = gen_algo_params(r, algo, part, d, n2, ok_only=True, cap_mode="big")
+    if algo == "VROOM":
+        params["n"] = n2
+    nb = {"algo": algo, "params": params, "partition": part, "domain": dom, "rounds": r.choice([20, 60, n2]),
+          "rewards": {"kind": r.choice(["gauss", "unit", "neg", "const"]), "seed": seed + 7}, "rng": sc["rng"], "final_query": False}
+    if algo in ("POO", "GPO"):
+        nb["base"] = sc.get("base")
+    if algo in ("POO", "GPO", "PCT", "VPCT"):
+        nb["params"]["rhomax"] = min(max(nb["params"]["rhomax"], 0.84), 0.95)
+    return {"sc": nb, "pre": r.choice([0, 5, 20, 60]), "every": r.choice([1, 1, 2, 5])}
+
+
 def tree_params(r, algo, n):
     p = {"nu": loguniform(r, 0.05, 20), "rho": r.uniform(0.05, 0.95)}
     if r.random() < 0.15:
@@ -149,7 +177,7 @@ def gen_algo_params(r, algo, part, d, n=None, *, ok_only=False, cap_mode="any"):
     meta = {"c01_proviso": True, "known": None}
     K = arity(part, d)
     if n is None:
-        n = r.choice([100, 100, 128, 200, 300, 400, 600])
+        n = gen_budget(r)
     if algo in ("T_HOO", "HCT", "VHCT"):
         return tree_params(r, algo, n), n, meta
     if algo == "Zooming":
@@ -219,7 +247,8 @@ def gen_algo_params(r, algo, part, d, n=None, *, ok_only=False, cap_mode="any"):
 
 
 def base_scenario(r, seed, algo, *, parts=None, dmax=3, n=None, T=None, real_prob=0.3, faults=True,
-                  reward_kinds=None, ok_only=False, cap_mode="any", sched_prob=0.0, labels=False, base=None, mid_prob=0.0):
+                  reward_kinds=None, ok_only=False, cap_mode="any", sched_prob=0.0, labels=False, base=None, mid_prob=0.0,
+                  neighbour_prob=0.0):
     part = gen_partition(r, parts)
     dom = gen_domain(r, dmax)
     d = len(dom)
@@ -239,6 +268,8 @@ def base_scenario(r, seed, algo, *, parts=None, dmax=3, n=None, T=None, real_pro
         sc["labels"] = r.choice([{"scheme": "one"}, {"scheme": "zero"}, {"scheme": "offset", "offset": 17},
                                  {"scheme": "gaps", "seed": seed, "start": r.randint(0, 3)}])
     sc["meta"] = meta
+    if neighbour_prob and r.random() < neighbour_prob and meta.get("known") is None:
+        sc["neighbours"] = [gen_neighbour(r, sc, seed)]
     return sc
 
 
